@@ -45,6 +45,7 @@ type Contract struct {
 	Opts         map[string]string
 	WriteSites   []WriteSite
 	ReplayAssume []Clause
+	Lets     [][2]string // textual macros: name, expression
 }
 
 type ContractSet struct {
@@ -161,7 +162,7 @@ func (cs *ContractSet) parseFile(root, file string) error {
 			for _, n := range names {
 				trig = append(trig, n[1])
 			}
-			nm := fmt.Sprintf("smt_%s_%d", filepath.Base(filepath.Dir(file)), d.line)
+			nm := fmt.Sprintf("smt_%s_%d", sanitize(filepath.ToSlash(rel)+"/"+filepath.Base(file)), d.line)
 			cs.SMT = append(cs.SMT, smtBlock{Name: nm, Triggers: trig, Text: rest, File: file})
 		case "bind":
 			parts := strings.Split(rest, "=>")
@@ -203,6 +204,12 @@ func (cs *ContractSet) parseFile(root, file string) error {
 					return fmt.Errorf("%s:%d: bad writesite", file, d.line)
 				}
 				cur.WriteSites = append(cur.WriteSites, WriteSite{Coll: f[0], Clause: parseClause(f[1], file, d.line)})
+			case "let":
+				kv := strings.SplitN(rest, "=", 2)
+				if len(kv) != 2 {
+					return fmt.Errorf("%s:%d: bad let", file, d.line)
+				}
+				cur.Lets = append(cur.Lets, [2]string{strings.TrimSpace(kv[0]), strings.TrimSpace(kv[1])})
 			case "replay-assume":
 				cur.ReplayAssume = append(cur.ReplayAssume, parseClause(rest, file, d.line))
 			case "nopanic":
